@@ -16,7 +16,8 @@ LEVEL_TEXT = ("For each of the 9 device types, batches of datagrams are built fr
               "remaining time) and sent to a real bridge; exactly one object of the right class with exactly those values must "
               "be delivered per datagram. Sampling, no proof.")
 RULE = ("case = device type + list of field dictionaries (one datagram each); non-trivial = the 6 MAC bytes and 4 IP bytes are "
-        "pairwise distinct and numeric fields are non-zero; distinct by datagram fields.")
+        "pairwise distinct and numeric fields are non-zero; distinct by datagram fields."
+        ' A third of the batches run under a host zone other than UTC; names include non-NFC-stable forms, a leading U+FEFF and leading/trailing blanks.')
 ASSUMPTIONS = [
     "broadcast layout of DESIGN appendix A.3 pinned by the 4 device captures + 12 on/off captures",
     "last_data_update, the on/off state of shutters and values outside the stated domains are not asserted",
